@@ -93,7 +93,7 @@ class C13(Scenario):
             if early:
                 add(n, ["pairs", None, sample_pairs(n, rng.randint(4, 16)), False])
             add(n, ["snapall", None, 1, HI], "snap")
-        weights = {"pairs": 6, "triples": 2, "inset": 2, "roundtrip": 3, "snap": 2, "gc": 0.3, "noop": 1.5, "formop": 1.2}
+        weights = {"pairs": 6, "triples": 2, "inset": 2, "roundtrip": 3, "snap": 2, "gc": 0.3, "noop": 1.5, "formop": 1.2, "remeasure": 0.6 if P.get("dicts") and P["meshes"] else 0}
         ctr["noop"] = 0
         if nn > 1 and arm != "local":
             weights.update({"send": 4, "recv": 5})
@@ -162,6 +162,16 @@ class C13(Scenario):
                     # expressions that contain the operand must still round-trip
                     if rng.random() < 0.6:
                         add(n, ["rt_anc", None, a, rng.choice(["pickle", "evalrepr"]), rng.randint(1, 3)])
+            elif k == "remeasure":
+                # a new measure is made from a metadata dict that earlier forms were built with,
+                # then called with that dict and a degree (the dict is the user's, the forms
+                # built with it must keep their repr / hash / signature)
+                d_ = rng.choice(P["dicts"])
+                m_ = rng.choice(P["meshes"])["slot"]
+                o1 = NOOP_BASE + ctr["noop"]
+                ctr["noop"] += 2
+                add(n, ["call", o1, "ufl.Measure", [rng.choice(["dx", "ds"])], {"domain": ["$", m_], "metadata": ["$", d_]}])
+                add(n, ["meth", o1 + 1, ["$", o1], "__call__", [], {"metadata": ["$", d_], rng.choice(["degree", "scheme"]): rng.choice([1, 3, 8])}])
             elif k == "formop" and pl:
                 # form arithmetic on pool members that already have a history (hashed,
                 # compared, signed); the results join the pool and meet history-free twins
